@@ -535,6 +535,7 @@ func vrfDaemonServe(w http.ResponseWriter, r *http.Request) {
 func VrfC12Router() {
 	cfg := &Config{}
 	cfg.Default()
+	cfg.Tracing = vrf_choice("tracing", 2) == 1
 	p, err := New(cfg)
 	vrf_assert(err == nil && p != nil, "C12.router.constructed")
 	if p == nil {
@@ -553,21 +554,24 @@ func VrfC12Router() {
 	type route struct {
 		path string
 		op   string // the cluster operation a hijacked request performs
+		raw  string // how the path was spelled on the wire, when it had escaped characters
 	}
 	routes := []route{
-		{"/api/v0/pin/add", "PinPath"}, {"/api/v0/pin/add/" + c0, "PinPath"},
-		{"/api/v0/pin/rm", "UnpinPath"}, {"/api/v0/pin/rm/" + c0, "UnpinPath"},
-		{"/api/v0/pin/ls", "PinGet"}, {"/api/v0/pin/ls/" + c0, "PinGet"},
-		{"/api/v0/pin/update", ""}, {"/api/v0/repo/stat", "Peers"},
+		{"/api/v0/pin/add", "PinPath", ""}, {"/api/v0/pin/add/" + c0, "PinPath", ""},
+		{"/api/v0/pin/rm", "UnpinPath", ""}, {"/api/v0/pin/rm/" + c0, "UnpinPath", ""},
+		{"/api/v0/pin/ls", "PinGet", ""}, {"/api/v0/pin/ls/" + c0, "PinGet", ""},
+		{"/api/v0/pin/update", "", ""}, {"/api/v0/repo/stat", "Peers", ""},
+		// the same commands spelled with percent-escapes (the daemon would decode them too)
+		{"/api/v0/pin/add", "PinPath", "/api/v0/pin/%61dd"}, {"/api/v0/pin/rm", "UnpinPath", "/api/v0/pin/r%6D"},
 		// not hijacked
-		{"/api/v0/version", "-"}, {"/api/v0/pin/verify", "-"}, {"/api/v0/block/put", "-"},
-		{"/api/v0/pin/add/" + c0 + "/more", "-"}, {"/api/v1/pin/add", "-"}, {"/", "-"}, {"/pin/add", "-"},
+		{"/api/v0/version", "-", ""}, {"/api/v0/pin/verify", "-", ""}, {"/api/v0/block/put", "-", ""},
+		{"/api/v0/pin/add/" + c0 + "/more", "-", ""}, {"/api/v1/pin/add", "-", ""}, {"/", "-", ""}, {"/pin/add", "-", ""},
 	}
 	rt := routes[vrf_choice("path", len(routes))]
 	method := []string{"POST", "GET", "PUT", "OPTIONS", "HEAD", "DELETE"}[vrf_choice("method", 6)]
 	q := url.Values{}
 	q.Set("arg", c0)
-	r := &http.Request{Method: method, URL: &url.URL{Path: rt.path, RawQuery: q.Encode()}, Header: http.Header{}}
+	r := &http.Request{Method: method, URL: &url.URL{Path: rt.path, RawPath: rt.raw, RawQuery: q.Encode()}, Header: http.Header{}}
 	w := &vrfWriter{hdr: http.Header{}}
 	p.server.Handler.ServeHTTP(w, r)
 
